@@ -28,31 +28,36 @@ PROP = dict(
     rule=("random: a fresh Loop + Scheduler, 1-2 channels / mutexes / semaphores (initial 0-2), a broadcast, 1-2 conditions (All/Any, one "
           "designated waiter each), 1-8 routine scripts of 1-8 steps over yield, wait, send (1-3 values back-to-back), receive, lock..unlock "
           "(with 0-2 possibly blocking steps in between), acquire, release, broadcast wait/post, condition add/wait/post, join, create "
-          "(run now / later), cancel, resume; 30% of the cases are mixed, the others concentrate on one primitive family so that several "
+          "(run now / later), cancel, resume; a quarter of the scripts ignore cancellation and carry on to their end, a quarter do not "
+          "unlock on the way out; 30% of the cases are mixed, the others concentrate on one primitive family so that several "
           "routines contend for one object. The main context runs from a loop callback: 0-6 actions (resume, cancel, send, release, post, "
           "create) each placed at the next idle point, 1-3 loop passes later or back-to-back, then cleanup() at an idle point, a pass "
           "boundary or at once. Every step logs call/return into one trace; FIFO/holder/count/condition shadows are rebuilt from the "
           "trace only and the safety clauses, the idle invariant (checked at every point where two whole loop passes ran no routine step) "
-          "and the cancel/cleanup/join clauses are decided on it. exhaustive: every combination of 1-3 routines x 1-3 steps over "
-          "{send,receive,yield}, {lock,unlock,yield}, {acquire,release,yield} (3 x 60 879 cases), run to idle, checked, cleaned up. "
-          "directed: 20 hand-written histories (two waiters released by back-to-back posts, woken waiter loses the race, cancelled waiter "
-          "in the queue, cancel/cleanup with a routine blocked in every kind of call, join shapes), each with both pass orders. "
-          "A case is non-trivial when at least two routines were really suspended inside a blocking call and at least one of them was "
-          "woken through a primitive (exhaustive: one and one); distinct = distinct hashes of (objects, all scripts, main program)"),
+          "and the cancel/cleanup/join clauses are decided on it. exhaustive: every combination of 1-3 routines x 1-3 (thorough: 1-4) steps "
+          "over {send,receive,yield}, {lock,unlock,yield}, {acquire,release,yield} (3 x 60 879 cases; thorough 3 x 1 742 520), run to idle, "
+          "checked, cleaned up. directed: 20 hand-written histories (two waiters released by back-to-back posts, woken waiter loses the "
+          "race, cancelled waiter in the queue, cancel/cleanup with a routine blocked in every kind of call, join shapes), each with both "
+          "orders of the first loop pass. A case is non-trivial when at least two routines were really suspended inside a blocking call and "
+          "at least one of them was woken through a primitive (exhaustive: one and one); distinct = distinct hashes of (objects, all "
+          "scripts, main program)"),
     assumptions=[
-        "routine bodies are well behaved: after yield()/wait() they test isCanceled(), and when a blocking call fails in a cancelled "
-        "routine they stop (releasing the mutexes they hold when the script says it uses Mutex::Locker); they create no routine on that way out",
-        "each Condition has one designated waiter that alone calls add()/wait() (the header documents that it supports a single waiter); "
-        "any context may post()",
+        "routine scripts are finite; three quarters stop at the first cancelled yield()/wait() or failed blocking call (releasing the "
+        "mutexes they hold when the script says it uses Mutex::Locker), the others ignore cancellation and run on to their end; a "
+        "cancelled routine creates no new routine (create() inside cleanup()'s sweep is treated as misuse)",
+        "each Condition has one designated waiter that alone calls add()/wait() (the header says it supports a single waiter); any "
+        "context may post()",
         "resume() is called on arbitrary routines, also ones suspended inside a primitive (a spurious wake-up): the anchors say waiters "
-        "re-check in a loop; Broadcast::wait / Condition::wait returning early because of such a resume is not held against the property",
-        "join() returning false for a target that had already finished (its token is gone from the cabinet) is counted, not reported: "
-        "the property only says that join returns",
+        "re-check in a loop; Broadcast::wait / Condition::wait returning early because of such a resume is not held against the "
+        "property (it only demands that posted waiters are resumed), join() returning true early is (the property says join returns "
+        "once its target has finished)",
+        "join() returning false for a target that had already finished (its token is gone from the cabinet) or that somebody else "
+        "joined is counted (join_false_*), not reported: the property only says that join returns; a routine never joins itself",
         "the scheduler is not used again after cleanup(); the Scheduler outlives the loop callbacks it queued",
         "semaphores start at 0..2; values are unique ints; scheduling is deterministic, so a case is a pure function of (seed, index)",
         "gcc ASan follows swapcontext onto the heap-allocated routine stacks (detect_stack_use_after_return is off); in the plain leg an "
         "overflow of the 8 KiB default stack would only be seen as heap corruption - the harness reports its own deepest frame "
-        "(max_routine_stack_depth_seen_by_harness)",
+        "(max_routine_stack_depth_seen_by_harness) and registers no log sink",
     ],
     technique=("runtime monitoring: generated and exhaustively enumerated routine scripts run on the real Scheduler/Channel/Mutex/Semaphore/"
                "Condition/Broadcast under ASan+UBSan+LSan and unsanitized; a call/return trace drives an independent shadow model and an "
